@@ -96,6 +96,25 @@ fn check_pair(ia: usize, ib: usize) -> Verdict {
             }
         }
     }
+    // non-finite quantities convert like any other: same dimension => Ok(the IEEE result of the formula)
+    for x in [f64::INFINITY, f64::NEG_INFINITY, f64::NAN] {
+        let got = a.convert_to(x, b);
+        let same_dim = ra.dims == rb.dims;
+        match got {
+            Ok(y) => {
+                let want = ((x * ra.scale + ra.offset) - rb.offset) / rb.scale;
+                let same = (y.is_nan() && want.is_nan()) || y == want;
+                if !same_dim || !same {
+                    return Err(("convert-non-finite".into(), format!("{x} {} -> {} = {y}, the formula gives {want} (same dimension: {same_dim})", ra.name(), rb.name())));
+                }
+            }
+            Err(e) => {
+                if same_dim {
+                    return Err(("convert-non-finite-refused".into(), format!("{x} {} -> {}: {e}", ra.name(), rb.name())));
+                }
+            }
+        }
+    }
     // Number arithmetic
     for &x in &[6.0, -1.5, 0.0, 1e21] {
         let y = 4.0;
@@ -180,7 +199,7 @@ fn sig_for(stage: &str, ia: usize, ib: usize) -> String {
 
 pub fn run(tier: Tier) -> i32 {
     let mut run = Run::new("C16", tier, "exploration");
-    run.rule = "all ordered pairs of the units of units.txt x 17 magnitudes (round ones, full-mantissa ones such as pi, 1/3, 0.1+0.2, very small and very large normal doubles) for convert_to (+ back), unit * and /, Number + - * / over 4 magnitudes; reference = scale/offset/dimension table parsed by the harness; non-trivial = ordered pair of two different units".into();
+    run.rule = "all ordered pairs of the units of units.txt x 17 magnitudes (round ones, full-mantissa ones such as pi, 1/3, 0.1+0.2, very small and very large normal doubles) for convert_to (+ back), ±INF and NaN through convert_to, unit * and /, Number + - * / over 4 magnitudes; reference = scale/offset/dimension table parsed by the harness; non-trivial = ordered pair of two different units".into();
     run.assume("forward error bounds 8ε/32ε·(|x·sa|+|oa|+|ob|)/|s| derived from the operation count of the conversion formula");
     run.assume("unit product/quotient scale compared with the library's own matching tolerance 10^-3");
     run.assume("+/- with exactly one unit-less operand is left unconstrained (the statement does not say)");
@@ -214,6 +233,28 @@ pub fn run(tier: Tier) -> i32 {
         }
     });
     run.absorb(l);
+    // history independence: conversion / product / quotient of a unit pair after another pair
+    // (all ordered pairs of 60 unit pairs: offset units, prefixes, dimensionless, incompatible ones)
+    {
+        let names = ["celsius", "fahrenheit", "kelvin", "kilowatt", "watt", "megawatt", "hour", "second", "meter", "foot", "kilowatt_hour", "joule", "percent", "pascal", "psi", "liter"];
+        let mut pairs: Vec<(usize, usize)> = vec![];
+        for a in names {
+            for b in names {
+                if let (Some(&ia), Some(&ib)) = (db().by_id.get(a), db().by_id.get(b)) {
+                    if (ia + ib) % 4 == 0 || a == b {
+                        pairs.push((ia, ib));
+                    }
+                }
+            }
+        }
+        let op = |p: &(usize, usize)| -> String {
+            let (a, b) = (lib(&db().units[p.0]), lib(&db().units[p.1]));
+            let c: Vec<String> = [3.141592653589793, -40.0, 0.0].iter().map(|x| format!("{:?}", a.convert_to(*x, b))).collect();
+            format!("{c:?}|{:?}|{:?}", (a * b).map(|u| u.ids[0].clone()), (a / b).map(|u| u.ids[0].clone()))
+        };
+        let l = super::common::history_pairs("unit-conversion", &pairs, &op, &|p: &(usize, usize)| json!({"a": db().units[p.0].name(), "b": db().units[p.1].name()}));
+        run.absorb(l);
+    }
     run.stats.evals += 1;
     if let Err((s, d)) = unitless_arith() {
         run.stats.fail(&s, json!({"unitless": true}), d);
@@ -226,6 +267,9 @@ pub fn run(tier: Tier) -> i32 {
 }
 
 pub fn replay(case: &J) -> Verdict {
+    if case["history_pair"].is_string() {
+        return Err(("history-changes-output:unit-conversion".into(), "re-run ./check C16 quick".into()));
+    }
     if case["unitless"] == true {
         return unitless_arith();
     }
